@@ -73,11 +73,19 @@ STR_POOL = ["", "a", "abc", "hello world", "Hello", "a,b,c", "  pad  ", "123", "
 BYTES_POOL = [b"", b"a", b"abc", b"\x00\xff", b"hello world", b"1,2"]
 
 
+# Free-form units keep every int inside the ssize_t range: an index beyond it raises OverflowError instead of IndexError in
+# compiled code (a finding that the template units report with a precise key); in a free-form unit its downstream effects
+# would surface under accidental keys.
+WORD_INTS = [False]
+
+
 def lit(t: str, rng: random.Random, small: bool = False) -> str:
     """A literal (constant expression valid inside the compiled module) of type t."""
     h, a = targs(t)
     if t == "int":
         v = rng.choice(SMALL_INTS if small or rng.random() < 0.6 else INT_POOL)
+        if WORD_INTS[0] and not -2 ** 63 <= v < 2 ** 63:
+            v = 2 ** 63 - 1 - (abs(v) % 1000) if v > 0 else -2 ** 63 + (abs(v) % 1000)
         return str(v) if v >= 0 else f"({v})"
     if t == "i64":
         v = rng.choice(I64_POOL[:7] if small else I64_POOL)
@@ -132,7 +140,7 @@ def val(t: str, rng: random.Random) -> str:
     if t == "str" and rng.random() < 0.25:
         return f"fresh_str({rng.randrange(100)})"
     if t == "int" and rng.random() < 0.1:
-        return f"fresh_int({rng.randrange(1000)})"
+        return f"fresh_int({rng.randrange(1000)})" if not WORD_INTS[0] else f"(fresh_int({rng.randrange(1000)}) >> 8)"
     if h == "list":
         n = rng.choice([0, 1, 2, 3, 4, 6, 9])
         return "[" + ", ".join(val(a[0], rng) for _ in range(n)) + "]"
